@@ -7,6 +7,7 @@ import (
 	"strings"
 
 	"github.com/jotaen/klog/klog"
+	"github.com/jotaen/klog/klog/parser"
 )
 
 // C12: report / total / today / print --with-totals agree, through the real CLI.
@@ -172,6 +173,37 @@ func runC12(env *Env, data map[string]any) *Outcome {
 	}
 	if grand["Total"] != wantTotal || grand["Should"] != wantShould || grand["Diff"] != wantTotal-wantShould {
 		fail("klog total differs from the sum over the records", tot.Stdout, fmt.Sprintf("Total %d Should %d Diff %d", wantTotal, wantShould, wantTotal-wantShould))
+	}
+	// ---- several input files: the records of all files, in argument order, are one input ----
+	if len(recs) >= 2 {
+		if _, bs, errs := parser.NewSerialParser().Parse(text); errs == nil && len(bs) >= 2 {
+			cut := 1 + len(text)%(len(bs)-1)
+			var a, b strings.Builder
+			for i, blk := range bs {
+				for _, l := range blk.Lines() {
+					if i < cut {
+						a.WriteString(l.Original())
+					} else {
+						b.WriteString(l.Original())
+					}
+				}
+			}
+			f1, f2 := writeFile(env, "c12-a.klg", a.String()), writeFile(env, "c12-b.klg", b.String())
+			for _, order := range [][]string{{f1, f2}, {f2, f1}} {
+				two := runCLI(env, opts, append([]string{"total", "--diff", "--decimal", "--no-style", "--no-warn"}, order...)...)
+				evals++
+				g2 := map[string]int{}
+				for _, m := range reTotalLine.FindAllStringSubmatch(two.Stdout, -1) {
+					v, _ := strconv.Atoi(m[2])
+					g2[m[1]] = v
+				}
+				if two.Panic != "" || two.Code != 0 || g2["Total"] != grand["Total"] || g2["Should"] != grand["Should"] || g2["Diff"] != grand["Diff"] || !strings.Contains(two.Stdout, fmt.Sprintf("(In %d record", len(recs))) {
+					fail("`klog total` over the same records split into two files differs from the single file", two.Stdout+two.Err+two.Panic, tot.Stdout)
+					break
+				}
+			}
+			o.Tags = append(o.Tags, "two-files")
+		}
 	}
 	// ---- klog report ----
 	args := []string{"report", "--aggregate", kind, "--diff", "--decimal", "--no-style", "--no-warn"}
